@@ -38,6 +38,21 @@ def run(res, tier, replay):
             c.folders = [fo]; c.kw = {}; c.files["in0.cab"] = cabfmt.build_single([fo], rng, with_ck=True); c.parts = ["in0.cab"]; c.members = list(fo.members)
         for combo in combos:
             scns.append(scn(c.files, c.parts, combo, len(c.members))); meta.append(("valid", i, combo, c, None))
+        # the settings changed between two members of a folder (the decoder of the folder is alive): still nothing changes on a valid archive
+        for combo in ((0, 0), (1, 1)) if i % 2 == 0 else ((0, 1),):
+            sc = scenario.Scn()
+            for k, nm in enumerate(c.parts): sc.file("in%d.cab" % k, c.files[nm])
+            sc.op("cab_new").op("cab_param", 3, combo[0]).op("cab_param", 1, combo[1])
+            for k in range(len(c.parts)): sc.op("cab_open", "c%d" % k, "in%d.cab" % k)
+            for k in range(1, len(c.parts)): sc.op("cab_append", "c%d" % (k - 1), "c%d" % k)
+            sc.op("cab_list", "c0"); cur = list(combo)
+            for mi in range(min(len(c.members), 60)):
+                if mi > 0:
+                    w = (mi + i) % 3
+                    if w != 2: cur[1] ^= 1; sc.op("cab_param", 1, cur[1])
+                    if w == 2: cur[0] ^= 1; sc.op("cab_param", 3, cur[0])
+                sc.op("cab_extract", "c0", mi, "out%d" % mi)
+            scns.append(sc); meta.append(("valid", 100000 + i, combo, c, None))
         if len(c.parts) == 1:
             cab = c.files[c.parts[0]]
             # (b) wrong stored checksums on chosen blocks
